@@ -261,7 +261,7 @@ PROPS = {
         ],
     },
     "C05": {
-        "lean_modules": ["TableauVerif.Props.C05"],
+        "lean_modules": ["TableauVerif.Props.C05", "TableauVerif.Props.C16Pools"],
         "oracles": ["c05.typeinfos", "c05.gen", "c13.dry", "c11.merge", "c04.det"],
         "streams": [
             ("replay.C05.typeinfos", 2, 12, 1),
